@@ -28,7 +28,7 @@ RULE = ('cases: (a) plain mode = secret class (1, n-1, leading zero bytes, high 
         'address, lot, sequence; wif/address/public key of the Key object), different '
         'passphrase; (c) one freshness history per run, in one process: >= 48 full default-argument flows (new intermediate code + '
         'new key) followed by >= 96 new keys on one intermediate code (thorough: 400 + 3000), compared pairwise over the whole '
-        'history (owner salts, codes, seeds, keys, addresses, encrypted keys, confirmation codes, shared 8-byte windows), then a hostile schedule: the global `random` state is re-seeded / restored before each of >= 24 new-key and 2 intermediate-code requests (results pairwise distinct; os.urandom bytes drawn and PRNG advance observed); (d) passphrases that look like hexadecimal (str and utf-8 bytes) in both modes, with wrong-passphrase probes differing only in letter case / blanks. non-trivial = distinct (mode, API, secret/salt class, compressed, network, '
+        'history (owner salts, codes, seeds, keys, addresses, encrypted keys, confirmation codes, shared 8-byte windows), then a hostile schedule: the global `random` state is re-seeded / restored before each of >= 24 new-key and 2 intermediate-code requests (results pairwise distinct; os.urandom bytes drawn and PRNG advance observed); (d) the guaranteed grid decrypt entry point (Key, HDKey, bip38_decrypt, Key._bip38_decrypt, HDKey._bip38_decrypt) x compression flag x mode, each cell a required probe, judged on secret, flag, public key, address, WIF; (e) passphrases that look like hexadecimal (str and utf-8 bytes) in both modes, with wrong-passphrase probes differing only in letter case / blanks. non-trivial = distinct (mode, API, secret/salt class, compressed, network, '
         'passphrase class, lot class) tuples; a history counts once per (function, length)')
 TRUSTED_BASE = ['vf/refs/bip38.py (self-checked: all BIP38 test vectors incl. unicode passphrase, EC-multiplied with and without '
                 'lot/sequence, confirmation codes, RFC 7914 scrypt and FIPS-197 AES vectors, repo tests/bip38_protected_key_tests.json)',
@@ -411,6 +411,80 @@ def chk_ec(case, col, rnd):
         _chk_wrong(api, g['encrypted'], network, _wrong(pw, rnd), case, col, 'ec_wrong_passphrase', mode='ec')
 
 
+# ------------------------------------------------------------------------------------------------ entry-point grid
+GRID_ENTRIES = ('Key', 'HDKey', 'bip38_decrypt', 'Key._bip38_decrypt', 'HDKey._bip38_decrypt')
+GRID_GROUPS = [(mode, comp) for mode in ('plain', 'ec') for comp in (True, False)]
+
+
+def _grid_probe(entry, mode, compressed):
+    return 'grid/%s/%s/%s' % (entry, mode, 'compressed' if compressed else 'uncompressed')
+
+
+def chk_grid(case, col):
+    """Guaranteed part of every run: one reference-made key per (mode, compression flag) decrypted through every decrypt
+    entry point of the library WITHOUT telling it the compression (the flag byte of the encrypted key decides); every
+    view the entry point offers (secret, compressed flag, public key, address, WIF) is judged against the reference."""
+    from bitcoinlib import keys
+    mode, compressed, network, pw = case['mode'], case['compressed'], case['network'], case['pass']
+    secret_in = bytes.fromhex(case['secret'])
+    _PW_BYTES[0] = False
+    fn = _fn(network)
+    if mode == 'plain':
+        enc, secret = ref.encrypt(secret_in, compressed, pw, address_fn=fn), secret_in
+        exp = _expected_views(network, secret, compressed)
+    else:
+        g = ref.ec_plan(pw, bytes.fromhex(case['salt']), case.get('lot'), case.get('seq'), bytes.fromhex(case['seedb']), compressed, fn)
+        enc, secret = g['encrypted'], g['secret']
+        exp = _expected_views(network, secret, compressed, bytes.fromhex(case['seedb']), case.get('lot'), case.get('seq'))
+    for entry in case['entries']:
+        col.case('grid/%s/%s/%s' % (entry, mode, 'c' if compressed else 'u'),
+                 nontrivial=('grid', entry, mode, compressed, network, case.get('lot') is not None), sample=case)
+        col.probe(_grid_probe(entry, mode, compressed))
+        c = dict(case, entry=entry)
+        try:
+            if entry == 'Key':
+                k = keys.Key(enc, password=pw, network=network)
+                got = {'secret': bytes(k.private_byte), 'compressed': bool(k.compressed), 'public_key': k.public_hex,
+                       'address': k.address(), 'wif': k.wif()}
+            elif entry == 'HDKey':
+                k = keys.HDKey(enc, password=pw, network=network, witness_type='legacy')
+                got = {'secret': bytes(k.private_byte), 'compressed': bool(k.compressed), 'public_key': k.public_hex,
+                       'address': k.address(), 'wif': k.wif_key()}
+            elif entry == 'bip38_decrypt':
+                r = _lib_decrypt('func', enc, network, pw)[1]
+                _judge_func_result(r, exp, c, col, mode)
+                got = {'secret': bytes(r[0]), 'compressed': bool(r[2])}
+            elif entry == 'Key._bip38_decrypt':
+                r = keys.Key._bip38_decrypt(enc, pw, network)
+                got = {'secret': bytes(r[0]), 'compressed': bool(r[1])}
+            else:
+                r = keys.HDKey._bip38_decrypt(enc, pw, network, 'legacy')
+                got = {'secret': bytes(r[0]), 'compressed': bool(r[1])}
+        except Exception as e:
+            col.violation(None, '%s refused a BIP38 %s-mode key of %s key with the right passphrase: %r' % (
+                entry, mode, 'a compressed' if compressed else 'an uncompressed', e), c, repr(e), exp['wif'])
+            continue
+        bad = sorted(k for k, v in got.items() if v != exp[k])
+        if bad:
+            col.violation(None, '%s(%s-mode BIP38 of %s key): wrong %s' % (entry, mode, 'a compressed' if compressed else 'an uncompressed', ', '.join(bad)),
+                          c, {k: (got[k].hex() if isinstance(got[k], bytes) else got[k]) for k in bad},
+                          {k: (exp[k].hex() if isinstance(exp[k], bytes) else exp[k]) for k in bad})
+
+
+def gen_grid(rnd, seed, sh):
+    """Shard `sh` (0..7) runs group sh % 4 with half of the entry points; the eight shards together fill every cell."""
+    mode, compressed = GRID_GROUPS[sh % 4]
+    entries = list(GRID_ENTRIES[:2]) if (sh // 4) % 2 == 0 else list(GRID_ENTRIES[2:])
+    nets = chain.NETWORK_NAMES
+    lot = seq = None
+    if mode == 'ec' and (seed + sh // 4) % 2:
+        lot, seq = rnd.randint(100000, 999999), rnd.randint(1, 4095)
+    return {'kind': 'grid', 'mode': mode, 'compressed': compressed, 'entries': entries,
+            'network': 'bitcoin' if (seed + sh) % 3 == 0 else nets[(seed * 5 + sh) % len(nets)],
+            'pass': _NFC_INVARIANT[(seed + sh) % len(_NFC_INVARIANT)][1], 'secret': _secret(rnd, 'random').hex(),
+            'salt': rnd.randbytes(8).hex(), 'seedb': rnd.randbytes(24).hex(), 'lot': lot, 'seq': seq}
+
+
 # ------------------------------------------------------------------------------------------------ freshness
 def _first_repeat(values):
     """-> (j, i) 1-based request numbers of the first value that equals an earlier one, or None."""
@@ -612,6 +686,8 @@ def run_case(case, col, rnd):
         chk_ec(case, col, rnd)
     elif k == 'fresh':
         chk_fresh(case, col)
+    elif k == 'grid':
+        chk_grid(case, col)
 
 
 def replay(case, col):
@@ -692,11 +768,17 @@ def run_shard(spec, col):
     col.require('fresh_seed_history', 144)
     col.require('fresh_material_windows', 192)
     col.require('fresh_hostile_prng', 26)
+    for mode, comp in GRID_GROUPS:          # a cell of the entry-point grid that never ran makes the run inconclusive
+        for entry in GRID_ENTRIES:
+            col.require(_grid_probe(entry, mode, comp))
     rnd = random.Random('%s-%d-%d' % (ID, spec['seed'], spec['shard']))
     sh, ns = spec['shard'], spec['nshard']
     off = spec['seed'] * 7919
     if spec.get('fresh'):
         chk_fresh(dict(spec['fresh'], kind='fresh', **{'pass': 'freshness-%d' % spec['seed']}), col)
+    if spec['n_noec'] or spec['n_ec']:
+        for j in range(sh, 8, ns):          # 8 grid units (4 groups x 2 halves of the entry points) over the case shards
+            chk_grid(gen_grid(rnd, spec['seed'], j), col)
     for i in range(spec['n_noec']):
         chk_noec(gen_noec(rnd, off + i * ns + sh), col, rnd)
     for i in range(spec['n_ec']):
